@@ -320,7 +320,7 @@ class Super:
         for d, label in cn.succ:
             lab = label
             if isinstance(label, tuple) and label[0] in ('T', 'F'):
-                lab = (label[0], label[1], func)
+                lab = (label[0], label[1], func, cn)
             self._edge(out.id, fc.s_in[d], lab)
             if correlated is not None and isinstance(label, tuple) and \
                     label[0] in ('T', 'F'):
@@ -386,7 +386,8 @@ class Super:
         last = None
         for nid in path:
             sn = self.nodes[nid]
-            if sn.kind in ('pt', 'in'):
+            if sn.kind in ('pt', 'in', 'exit_t', 'exit_f', 'exit_n',
+                           'callee_raise'):
                 continue
             if sn.kind == 'out' and sn.cn.kind not in (
                     'cond', 'raise', 'return', 'handler'):
